@@ -38,7 +38,10 @@ def variants(n):
          ("rename-prefix", ident, [0] * n, PREFIXNAMES[:n], "dnf", "bnet"),
          # variables whose dynamics are the identity written as FREE INPUTS (no rule at all; AEON creates an implicit
          # parameter without regulators, which biobalm accepts as an input that never changes)
-         ("free-inputs", ident, [0] * n, base, "dnf", "bnet-free")]
+         ("free-inputs", ident, [0] * n, base, "dnf", "bnet-free"),
+         # every function written over its essential variables only, duplicated idempotently: (f) & (f) / !!(f)
+         ("idem", ident, [0] * n, base, "idem", "bnet"),
+         ("notnot", ident, [0] * n, base, "notnot", "bnet")]
     return V
 
 
@@ -54,6 +57,11 @@ def render(tables, names, style):
             f = "false"
         elif not zeros:
             f = "true"
+        elif style in ("idem", "notnot"):
+            ess = [j for j in range(n) if any(tt[i] != tt[states.index(x[:j] + (1 - x[j],) + x[j + 1:])] for i, x in enumerate(states))]
+            rows = sorted({tuple(x[j] for j in ess) for x in ones})
+            d = " | ".join("(" + " & ".join((names[j] if b else "!" + names[j]) for j, b in zip(ess, r)) + ")" for r in rows)
+            f = f"({d}) & ({d})" if style == "idem" else f"!!({d})"
         elif style == "dnf":
             f = " | ".join("(" + " & ".join((names[j] if x[j] else "!" + names[j]) for j in range(n)) + ")" for x in ones)
         elif style == "cnf":
@@ -318,7 +326,7 @@ def replay(rec):
 def tasks(tier, seed, selftest=False):
     T = []
     q = tier == "quick"
-    groups = [["cnf", "ite"], ["aeon", "sbml"], ["rename+rotate", "order-only"], ["flip0", "reverse+flipall"], ["rename-prefix"], ["free-inputs"]]
+    groups = [["cnf", "ite"], ["aeon", "sbml"], ["rename+rotate", "order-only"], ["flip0", "reverse+flipall"], ["rename-prefix"], ["free-inputs"], ["idem", "notnot"]]
     for g in groups:
         T.append({"prop": PROP, "family": "U2", "label": "U2/" + "+".join(g), "timebox": 60 if q else 600, "seed": seed, "params": {"which": g, "selftest": selftest}})
         if selftest:
@@ -334,7 +342,7 @@ def tasks(tier, seed, selftest=False):
 def main(tier, seed, t0, selftest=False):
     results = common.run_tasks(tasks(tier, seed, selftest))
     return common.finish(PROP, tier, seed, "model_checking", results, t0, selftest=selftest, functions=FUNCTIONS,
-                         bounds={"presentations": "identity variables as free inputs (no rule), CNF, nested ITE, aeon text, sbml text, renamed+rotated declaration order, renamed to names containing the place prefixes b0_/b1_, order reversed only, variable 0 negated, all variables negated + reversed + renamed + CNF",
+                         bounds={"presentations": "identity variables as free inputs (no rule), essential-support DNF duplicated idempotently ((f)&(f), !!(f)), CNF, nested ITE, aeon text, sbml text, renamed+rotated declaration order, renamed to names containing the place prefixes b0_/b1_, order reversed only, variable 0 negated, all variables negated + reversed + renamed + CNF",
                                  "families": "U2, D3 (quick, time-boxed); + S1C2 (thorough)",
                                  "sanitisation": "2 symbolic names of length <= 2 and 3 of length 1 (quick); <= 3 / <= 2 (thorough) over the alphabet " + "".join(ALPH) + "; classes = (lengths, per-character validity, identity of valid characters)",
                                  "outside": "AEON's parsers/serialisers themselves (aeon and sbml text is produced by AEON from the bnet form)"},
